@@ -27,7 +27,7 @@ RULE = ("Exhaustive enumeration (no random choice): (A) all 2^7 presence pattern
         "{None,gz,zip,xz,bogus} x input formats + bogus x examples modes + bogus x the 4 or-flag combinations (quick: examples/or-flags "
         "cycled instead of multiplied); (C) thresholds {-0.01,0,1,1.01} x output formats {ShEx,Shacl,bogus} x sinks {none,string,"
         "file,both,uml,uml+string} (the PlantUML call is replaced by a recorder); (D) near-miss unknown values for the four closed vocabularies (every substring of "
-        "length <= 5 of the joined vocabulary, prefixes, suffixes, case variants, padded / extended / empty strings) and thresholds within 1e-9 .. 1 ulp of the interval ends.  Oracle: reference predicate; constructor / shex_graph raise ValueError <=> predicate says invalid, any other "
+        "length <= 5 of the joined vocabulary, prefixes, suffixes, case variants, padded / extended / empty strings) and thresholds within 1e-9 .. 1 ulp of the interval ends; (E) every sequence of 2 (quick: most of 3, thorough: all of 3) calls on ONE Shaper over six call kinds (valid, threshold above / below the interval, SHACL, unknown format, no sink), each call judged on its own arguments.  Oracle: reference predicate; constructor / shex_graph raise ValueError <=> predicate says invalid, any other "
         "exception type is a violation, and an accepted configuration must complete a shex_graph call on a tiny graph served in the "
         "declared format/compression (no deferral).  Non-trivial: the configuration differs from a valid one in at most one argument "
         "group (the accept/reject boundary) - all are counted; distinct by the case itself.")
@@ -163,7 +163,7 @@ def check(c):
     labels = set()
     exp_ctor = ctor_invalid(c)
     call = c.get("call") or {"thr": 0, "fmt": "ShEx", "sink": "string"}
-    exp_call = call_invalid(call)
+    exp_call = call_invalid(call) if not c.get("calls") else [r for cl in c["calls"] for r in call_invalid(cl)]
     labels.add("expected:reject" if (exp_ctor or exp_call) else "expected:accept")
     nt = len(exp_ctor) + len(exp_call) <= 1
     if nt:
@@ -188,6 +188,23 @@ def check(c):
             return ok(labels, nt)
         if crash is not None:
             return _deferred(crash, "constructor rejected a valid configuration with %s: %s" % (crash, desc), labels, nt, c)
+        if c.get("calls"):
+            for i, cl in enumerate(c["calls"]):
+                bad = call_invalid(cl)
+                skw = {"acceptance_threshold": cl["thr"], "output_format": cl["fmt"]}
+                if cl["sink"] == "string":
+                    skw["string_output"] = True
+                res, crash = sut.guarded(lambda: holder["s"].shex_graph(**skw), 30)
+                where = "call %d of the sequence %s on one Shaper" % (i + 1, c["calls"])
+                if bad and crash is None:
+                    return violation("shex_graph accepted an invalid call (%s): %s" % ("; ".join(bad), where), labels, nt)
+                if bad and crash.type != "ValueError":
+                    return violation("shex_graph rejected (%s) with %s instead of ValueError: %s" % ("; ".join(bad), crash, where), labels, nt)
+                if not bad and crash is not None:
+                    return violation("a valid call fails with %s: %s" % (crash, where), labels, nt)
+                if not bad and not isinstance(res, str):
+                    return violation("a valid call returned %r: %s" % (res, where), labels, nt)
+            return ok(labels | {"call-sequence"}, nt)
         out_path = os.path.join(d, "out.shex")
         uml_path = os.path.join(d, "out.png")
         skw = {"acceptance_threshold": call["thr"], "output_format": call["fmt"]}
@@ -342,6 +359,16 @@ def enumerate_cases(tier):
             yield dict(base, sources=["raw_graph"], targets=[], all_classes=True, call={"thr": 0, "fmt": fmt, "sink": sink})
     for thr in (-1e-9, -1e-300, 1 + 1e-9, 1.0000000000000002, 2, -1, 1e-300, 1 - 1e-16, 0.0, 1.0):
         yield dict(base, sources=["raw_graph"], targets=[], all_classes=True, call={"thr": thr, "fmt": "ShEx", "sink": "string"})
+    # (E) call-time checks on ONE Shaper: every call of a sequence is judged on its own arguments (an invalid call rejected once
+    # must be rejected again; a valid call after an invalid one must succeed)
+    kinds = [{"thr": 0.5, "fmt": "ShEx", "sink": "string"}, {"thr": 1.5, "fmt": "ShEx", "sink": "string"},
+             {"thr": -0.25, "fmt": "ShEx", "sink": "string"}, {"thr": 1, "fmt": "Shacl", "sink": "string"},
+             {"thr": 0.5, "fmt": "bogus", "sink": "string"}, {"thr": 0, "fmt": "ShEx", "sink": "none"}]
+    for L in (2, 3):
+        for seq in itertools.product(range(len(kinds)), repeat=L):
+            if tier == "quick" and L == 3 and len(set(seq)) == 3 and (seq[0] + seq[1] + seq[2]) % 3:
+                continue
+            yield dict(base, sources=["raw_graph"], targets=[], all_classes=True, calls=[kinds[i] for i in seq])
     # (C) call-time checks
     for thr in (-0.01, 0, 1, 1.01):
         for fmt in ("ShEx", "Shacl", "bogus"):
